@@ -209,7 +209,10 @@ def field_ids(draw, n: int, max_fid: int, shuffle: bool, dup: bool = False) -> L
     return ids
 
 
-unit_text = st.text(alphabet="abcdefgCVAmsk/%^2 \u00b0\u00b5\u03a9", min_size=0, max_size=5)
+# incl. characters that Unicode normalisation (NFC/NFKC), case mapping or Latin-1 re-encoding would rewrite: OHM SIGN,
+# ANGSTROM SIGN, combining marks after a base letter, a ligature, sharp s, dotted capital I, conjoining Hangul jamo
+unit_text = st.text(alphabet="abcdefgCVAmsk/%^2 \u00b0\u00b5\u03a9\u2126\u212b\u0301\u030a\ufb01\u00df\u0130\u1100\u1161",
+                    min_size=0, max_size=5)
 
 
 def _f64_exact(x: float) -> float:
@@ -295,7 +298,8 @@ class ValCfg:
 
 
 MAGIC_LENGTHS = [255, 256, 257, 4091, 4092, 4093, 4095, 4096, 4097, 8188, 8192]
-NON_ASCII = ["\u00b0", "\u00b5", "\u03a9", "\u00e9", "\u65e5", "\U0001f600", "\u00ff", "\u0100", "\u2028"]
+NON_ASCII = ["\u00b0", "\u00b5", "\u03a9", "\u00e9", "\u65e5", "\U0001f600", "\u00ff", "\u0100", "\u2028",
+             "\u2126", "\u212b", "\u0301", "\u030a", "\ufb01", "\u00df", "\u0130", "\u1100", "\u1161"]
 ascii_chars = st.one_of(st.characters(min_codepoint=0, max_codepoint=127), st.characters(min_codepoint=0, max_codepoint=127),
                         st.characters(min_codepoint=0, max_codepoint=127), st.characters(min_codepoint=0, max_codepoint=127),
                         st.characters(min_codepoint=0, max_codepoint=127), st.characters(min_codepoint=0, max_codepoint=127),
